@@ -60,6 +60,11 @@ impl Bank {
     }
 
     pub fn merge(&mut self, segment: &Segment) {
+        // A segment nothing was emitted to has nothing to contribute, not even its start address
+        if segment.range().is_empty() {
+            return;
+        }
+
         self.range = if self.range.is_empty() {
             let new_range = segment.range();
             self.data = vec![self.options.fill.unwrap_or_default(); new_range.len()];
